@@ -111,6 +111,13 @@ add("C17", "model-based stateful testing (Hypothesis RuleBasedStateMachine) of r
     "One access mode per run (mixing get_sample and get_series is not claimed); streams up to 3e4 samples; fmin>=fs/2000 so that settling is cheap.",
     "DESIGN.md section 6 C17")
 
+add("C18", "property-based testing against an analytic oracle (frequency response of the generator's coefficient arrays), metamorphic seed-fixed scaling, and exhaustive-length DFT round trips",
+    "For generated (alpha, fs, fmin, fmax) the analytic two-sided density of the shaping cascade must equal f^-alpha within 1 dB on 300 points between the corners (and 1 at 1 Hz); "
+    "white noise variance and its exact scaling with psd and fs at a fixed seed; fftnoise for every length 2..130 and generated magnitude vectors must return a real series "
+    "with exactly the prescribed DFT magnitudes and Hermitian symmetry; band-limited noise has unit magnitude inside and nothing outside its band.",
+    "Corners excluded by a factor 4 (density is -3 dB at a corner by construction); the time-domain filtering itself is pinned by C17's reference cascade.",
+    "DESIGN.md section 6 C18")
+
 MANIFEST = {
     "version": 1,
     "setup_cmd": "/venv/bin/python -m harness.setup",
